@@ -128,6 +128,18 @@ CLAIMED["C16"] = (
     "Trusts TLC/Json/BigInt.tla; the textual codecs (hex, base64, bech32) of the realisation step are not specified.",
     "DESIGN.md section 5, C16")
 
+CLAIMED["C17"] = (
+    "TLC-enumerated identifier spellings and usage patterns (MC_Tii) built by the real tx3c binary (`build --emit tii`), interface read back and related to the decoded embedded IR + TLC trace validation of the name relation (Trace_Build / Tii.tla)",
+    "For every spelling of parameter, party and environment names (lower, Capitalised, UPPER, mixed), used or unused by the body, with unused / case-colliding parameters, a second party or a constructor policy, TLC validates on the artifacts of the real compiler CLI: "
+    "every key the embedded IR requires is declared under exactly that spelling, declared names do not collapse, the IR requires exactly as many keys as the body uses names, and the embedded IR equals the in-process lowering.",
+    "Trusts TLC/Json, the tx3c build from /repo's working tree, the driver's to_lowercase for the collapse check; one recorded finding (parameters differing only in case).",
+    "DESIGN.md section 5, C17")
+CLAIMED["C18"] = (
+    "history monitor over build artifacts (Build.tla / Trace_Build): every example, spelling program (MC_Tii) and generated core program (MC_Lang) lowered and encoded 20x in one process, in 3 more processes and built 3x by the real tx3c; TLC validates that all digests of one artifact agree",
+    "TLC checks on the recorded history that every Built event of an artifact (TIR bytes of each tx, the .tii file) of one source carries one digest, across repetitions in a process, across fresh driver processes and across runs of the tx3c binary.",
+    "Detection of an order leak is probabilistic per program (26 draws) and near certain over the corpus; digests by Blake2b (driver) / sha256 (orchestrator).",
+    "DESIGN.md section 5, C18")
+
 ALL = ["C%02d" % i for i in range(1, 21)]
 
 NOT_YET = "check not built yet in this revision of /verif (planned: see DESIGN.md section 5); not claimed until its machinery exists and is quiet on the unchanged tree"
